@@ -249,11 +249,4 @@ def r7(ctx, rep):
     R = rep.rule('C04.R7', 'applicability bookkeeping folded: candidate set = filter-passing unticked nodes; every tracked universal node '
                            'gets every constant on the branch (its own included), one target per unapplied constant; visible-world index, '
                            'unserial worlds and per-node/world counters record exactly what happened')
-    for fold in (helpersfold.fold_filter_cache, helpersfold.fold_nodeconsts, helpersfold.fold_extended_quantifier_targets,
-                 helpersfold.fold_world_index, helpersfold.fold_unserial, helpersfold.fold_counts):
-        res, cons = fold(m)
-        rep.consult(*cons)
-        for ok, case, detail in res:
-            rep.instance(R, ok=ok, sample=dict(fold=fold.__name__, case=case), nontrivial=(fold.__name__, case))
-            if not ok:
-                rep.finding(R, f'C04.R7/{fold.__name__[5:]}/{case}', cons[0].split(' ')[0], fold.__name__[5:], f'{case}: {detail}')
+    common.bookkeeping(ctx, rep, R, 'C04.R7')
